@@ -13,7 +13,7 @@ use std::sync::mpsc::{channel, Receiver};
 use std::time::Duration;
 
 
-fn build_binary() -> Result<String, String> {
+pub fn build_binary() -> Result<String, String> {
     let bin_target = format!("{}/target/chessbin", crate::report::verif_dir());
     let bin_target = bin_target.as_str();
     let st = Command::new("cargo")
